@@ -8,6 +8,9 @@ import CxxModel.Ply
 import CxxModel.TokStream
 import CxxModel.Parser.Decl
 import CxxModel.ToJ
+import CxxModel.PPFilter
+import CxxModel.ReprRender
+import CxxModel.Gen.Schema
 import CxxModel.Gen.LexRules
 open Lean
 
@@ -168,6 +171,41 @@ def opSimple (j : Json) : Json :=
     let (_, r2) := runParse { env with faultAt := some i } filename text (P.parserProg F D)
     Json.mkObj [("result", jresult r2), ("data", Json.null), ("fold_fault", toJson i)]
 
+def opPPFilter (j : Json) : Json :=
+  let fname := strToStr (getStr j "fname")
+  let lines := (jsonStrs (getArr j "lines")).map strToStr
+  let out := match getStr j "kind" with
+    | "gcc" => gccFilter fname true lines
+    | _ => pcppFilter fname true lines
+  Json.mkObj [("out", Json.arr (out.map jstr).toArray)]
+
+/-- decode the harness's tagged JSON into a `PyVal` (fuel bounds the depth) -/
+def toPyVal : Nat → Json → PyVal
+  | 0, _ => .none
+  | fuel + 1, j =>
+    match j with
+    | .null => .none
+    | .bool b => .bool b
+    | .num n => .int n.mantissa
+    | .str s => .str s
+    | .arr a => .list (a.toList.map (toPyVal fuel))
+    | .obj _ =>
+      match j.getObjValAs? String "__cls__" with
+      | .ok cls =>
+        let fs := (getArr j "fields").toList.map (fun p => match p with
+          | .arr #[.str k, v] => (k, toPyVal fuel v)
+          | _ => ("?", PyVal.none))
+        .obj cls fs
+      | .error _ =>
+        let kvs := (getArr j "__dict__").toList.map (fun p => match p with
+          | .arr #[.str k, v] => (k, toPyVal fuel v)
+          | _ => ("?", PyVal.none))
+        .dict kvs
+
+def opRepr (j : Json) : Json :=
+  let v := toPyVal 200 ((j.getObjVal? "value").toOption.getD Json.null)
+  Json.mkObj [("repr", Json.str (nondefaultRepr Gen.schema v).render), ("conforms", Json.bool (Conforms Gen.schema v))]
+
 /-- fold of an event stream given by a parse (for the fold correspondence): the model's own
     events are folded; the harness compares with the implementation's `SimpleCxxVisitor` -/
 def handle (j : Json) : Json :=
@@ -177,6 +215,8 @@ def handle (j : Json) : Json :=
   | "stream" => opStream j
   | "parse" => opParse j
   | "simple" => opSimple j
+  | "ppfilter" => opPPFilter j
+  | "repr" => opRepr j
   | "ping" => Json.mkObj [("pong", Json.bool true)]
   | op => Json.mkObj [("error", Json.str s!"unknown op {op}")]
 
